@@ -35,6 +35,9 @@ def pid_exists(pid):
         return True
     try:
         os.kill(pid, 0)
+    except OverflowError:
+        # PID is too big to fit a pid_t, hence it cannot exist
+        return False
     except ProcessLookupError:
         return False
     except PermissionError:
